@@ -289,9 +289,9 @@ static std::string run_case(Session& S, const std::string& line, unsigned serial
 
 // ------------------------------------------------------------------------------------------
 // L case:  L <piece_len> <load_date> | <len>,<size on disk or -1>,<mtime>[,p = padding file] ... | <resume spec> | <bad pieces or ->
-//   resume spec tokens:  top=m|x   files=none|notlist|<e>,<e>,..  (e: x not a map, n map without mtime,
-//                        s mtime is a string, <int> mtime value)   bf=none|V<int>|S<hex>
-//                        unc=none|<hex>|-   ts=none|str|<int>
+//   resume spec tokens:  top=m|x   files=none|notlist|str|map|empty|<e>,<e>,..  (e: x/xi/xl entry is a string/int/list,
+//                        n map without mtime, s/l/m mtime is a string/list/map, <int> mtime value)
+//                        bf=none|L|M|V<int>|S<hex>   unc=none|V|L|<hex>|-   ts=none|str|L|<int>
 //   bad pieces: their bytes on disk are overwritten (piece does not verify)
 // Output:  out=<Ignored|Loaded|Threw> bits=<after load> ranges=<after load> flags=<create,resize per file>
 //          final=<bits after hash_check(false)>  ||  ssl=<valid on disk by OpenSSL> sound=<0|1> exc=<message>
@@ -384,15 +384,22 @@ static std::string run_load(Session& S, const std::string& line, unsigned serial
     else if (key == "files") {
       if (v == "none") continue;
       if (v == "notlist") { resume.insert_key("files", torrent::Object(int64_t(5))); continue; }
+      if (v == "str") { resume.insert_key("files", torrent::Object(std::string("abc"))); continue; }
+      if (v == "map") { resume.insert_key("files", torrent::Object::create_map()); continue; }
+      if (v == "empty") { resume.insert_key("files", torrent::Object::create_list()); continue; }
       torrent::Object& l = resume.insert_key("files", torrent::Object::create_list());
       size_t a = 0;
       while (a <= v.size()) {
         size_t b = v.find(',', a);
         std::string x = v.substr(a, b == std::string::npos ? std::string::npos : b - a);
         if (x == "x") l.as_list().push_back(torrent::Object(std::string("junk")));
+        else if (x == "xi") l.as_list().push_back(torrent::Object(int64_t(7)));
+        else if (x == "xl") l.as_list().push_back(torrent::Object::create_list());
         else {
           torrent::Object m = torrent::Object::create_map();
           if (x == "s") m.insert_key("mtime", torrent::Object(std::string("12")));
+          else if (x == "l") m.insert_key("mtime", torrent::Object::create_list());
+          else if (x == "m") m.insert_key("mtime", torrent::Object::create_map());
           else if (x != "n") m.insert_key("mtime", torrent::Object(int64_t(std::stoll(x))));
           l.as_list().push_back(m);
         }
@@ -401,12 +408,17 @@ static std::string run_load(Session& S, const std::string& line, unsigned serial
       }
     } else if (key == "bf") {
       if (v == "none") continue;
-      if (v[0] == 'V') resume.insert_key("bitfield", torrent::Object(int64_t(std::stoll(v.substr(1)))));
-      else resume.insert_key("bitfield", torrent::Object(unhex(v.substr(1))));
+      if (v == "L") resume.insert_key("bitfield", torrent::Object::create_list());
+      else if (v == "M") resume.insert_key("bitfield", torrent::Object::create_map());
+      else if (v[0] == 'V') resume.insert_key("bitfield", torrent::Object(int64_t(std::stoll(v.substr(1)))));
+      else resume.insert_key("bitfield", torrent::Object(unhex(v.size() > 1 ? v.substr(1) : std::string("-"))));
     } else if (key == "unc") {
-      if (v != "none") resume.insert_key("uncertain_pieces", torrent::Object(unhex(v)));
+      if (v == "V") resume.insert_key("uncertain_pieces", torrent::Object(int64_t(3)));
+      else if (v == "L") resume.insert_key("uncertain_pieces", torrent::Object::create_list());
+      else if (v != "none") resume.insert_key("uncertain_pieces", torrent::Object(unhex(v)));
     } else if (key == "ts") {
       if (v == "str") resume.insert_key("uncertain_pieces.timestamp", torrent::Object(std::string("7")));
+      else if (v == "L") resume.insert_key("uncertain_pieces.timestamp", torrent::Object::create_list());
       else if (v != "none") resume.insert_key("uncertain_pieces.timestamp", torrent::Object(int64_t(std::stoll(v))));
     }
   }
